@@ -135,6 +135,15 @@ class ListMembers(Contract):
             c.oblig("assert", "fileinfo-shape", bool(ok))
             if ok:
                 c.oblig("assert", "fileinfo-fields-of-this-member", And(eq(a[0], attr(f, "filename")), eq(a[1], attr(f, "compressed")), eq(a[2], attr(f, "uncompressed")), eq(a[4], attr(f, "is_directory")), eq(a[6], attr(f, "crc32"))))
+                # the time shown is THIS member's stored time, and none when it has none (FX28: the previous member's
+                # time used to be carried over)
+                conv = [e for e in eng.trace[Lp.trace_mark:] if e.kind == "pure" and str(e.name).endswith("filetime_to_dt")]
+                lw = attr(f, "lastwritetime")
+                if conv:
+                    own = len(conv) == 1 and a[5] is conv[0].result
+                    c.oblig("assert", "time-is-this-member's-own", And(bool(own), eq(conv[0].args[0], lw), Not(eq(lw, None))))
+                else:
+                    c.oblig("assert", "no-time-shown-without-a-stored-time", And(a[5] is None, eq(lw, None)))
             eng.ghost["made"] = eng.ghost.get("made", 0) + 1
 
         return {("call", "FileInfo"): [on_fi]}
